@@ -144,6 +144,31 @@ def ternary_blocks(rnd, n):
     return out[:n]
 
 
+def repeat_blocks(rnd, n):
+    """a value computed twice by the block although once would do (an expensive read, a hash, an environment opcode,
+    a wide constant): the declared length leaves room for models that duplicate the value and for models that
+    compute it again, so soft weights of instructions of very different prices are compared within one instance"""
+    T = lambda txt: evm.from_plain_string(txt)
+    fam = []
+    for x in ("SLOAD", "MLOAD", "BALANCE", "CALLDATALOAD", "EXTCODESIZE", "ISZERO", "NOT"):
+        for tail in ("", "ADD", "SWAP1", "LT", "PUSH 0 MSTORE", "POP"):
+            fam.append(T("DUP1 %s SWAP1 %s %s" % (x, x, tail)))
+            fam.append(T("DUP1 %s DUP2 %s %s" % (x, x, tail)))
+    for x in ("ADDRESS", "CALLVALUE", "CALLER", "TIMESTAMP", "PUSH ffffffffffffffffffffffffffffffff", "PUSH 1", "PUSH 0", "PUSH 100"):
+        for tail in ("", "ADD", "DUP3 ADD", "SWAP2", "PUSH 0 SSTORE"):
+            fam.append(T("%s %s %s" % (x, x, tail)))
+    fam.append(T("PUSH 20 DUP2 KECCAK256 PUSH 20 DUP3 KECCAK256 ADD"))
+    core = [T("DUP1 SLOAD SWAP1 SLOAD ADD"), T("DUP1 MLOAD SWAP1 MLOAD ADD"), T("ADDRESS ADDRESS ADD"),
+            T("PUSH ffffffffffffffffffffffffffffffff PUSH ffffffffffffffffffffffffffffffff ADD")]
+    out, seen = [], set()
+    for b in core + rnd.sample(fam, min(len(fam), max(0, n - len(core)))):
+        t = tuple(b)
+        if t not in seen:
+            seen.add(t)
+            out.append(b)
+    return out[:n]
+
+
 def encode(key, S, params):
     """run the real encoder; returns (BlockOptimizer, smt2 text)"""
     from smt_encoding.block_optimizer import BlockOptimizer
